@@ -8,10 +8,10 @@ Data == JsonDeserialize(IOEnv.OUT_DATA)
 Tab  == Data.tab
 INSTANCE KOutputs WITH Num10 <- Tab.num10, Num16 <- Tab.num16, NumC <- Tab.numc,
                        DecStr <- Tab.decstr, HexStr <- Tab.hexstr, StrRank <- Tab.rank,
-                       NumF <- Tab.numf, NormF <- Tab.normf, FCanon <- Tab.fcanon
+                       NumF <- Tab.numf, NormF <- Tab.normf, FCanon <- Tab.fcanon, HexPfx <- Tab.hexpfx
 KS == INSTANCE KStore WITH Num10 <- Tab.num10, Num16 <- Tab.num16, NumC <- Tab.numc,
                        DecStr <- Tab.decstr, HexStr <- Tab.hexstr, StrRank <- Tab.rank,
-                       NumF <- Tab.numf, NormF <- Tab.normf, FCanon <- Tab.fcanon
+                       NumF <- Tab.numf, NormF <- Tab.normf, FCanon <- Tab.fcanon, HexPfx <- Tab.hexpfx
 
 Progs == Data.progs
 NT    == Len(Progs)
